@@ -194,6 +194,16 @@ def r05_3(ctx, g, helpers):
                     elif const_value(a.slice) == 2:
                         qe = st.targets[0].id
         if qs is None or qe is None:
+            # a bound pulled into the span of the list searched (min / max with entries of the list): the list holds the nodes
+            # that carry alignments, not the contig, so a region that lies wholly before the first / after the last of them is
+            # moved onto that node instead of finding nothing
+            for st in walk_stmts(h.node.body):
+                if isinstance(st, ast.Assign) and isinstance(st.targets[0], ast.Name):
+                    ints = [c_ for c_ in ast.walk(st.value) if isinstance(c_, ast.Call) and norm(c_.func) == "int" and c_.args and isinstance(c_.args[0], ast.Subscript) and norm(c_.args[0].value) == reg and const_value(c_.args[0].slice, None) in (1, 2)]
+                    clamps = [c_ for c_ in ast.walk(st.value) if isinstance(c_, ast.Call) and norm(c_.func) in ("min", "max") and any(x_ is i_ for i_ in ints for x_ in ast.walk(c_))]
+                    if ints and clamps:
+                        ctx.violated("R05.3", h.where(st), f"`{norm(st)[:70]}` pulls a bound of the region into the span of the nodes searched: the list holds only nodes with alignments, so a region that lies entirely in an unaligned head or tail of its contig (correct answer: nothing found) is answered with the records of the nearest aligned node", key_of(h, "region-bound-clamped"))
+                        return
             raise AnalysisError("R05.3", h.where(), "cannot find the integer region bounds (int(region[1]), int(region[2]))")
         # result list: returned name
         rets = [r for r in walk_own(h.node) if isinstance(r, ast.Return) and r.value is not None]
@@ -513,6 +523,42 @@ def r05_4(ctx, v, g, helpers):
             if isinstance(b, ast.BoolOp) and isinstance(b.op, ast.Or) and any(v is fc for v in b.values):
                 alt = [norm(v) for v in b.values if v is not fc]
                 ctx.violated("R05.4", g.where(b), f"the per-contig filter also lets through index entries with `{alt[0][:60]}`: nodes of another contig (e.g. `GRCh38#0#chr1` for a region on `chr1`) that lie at the same coordinates are searched too, and their alignments are returned for the region", key_of(g, f"contig-filter-widened:{alt[0][:40]}"))
+    # ... and by nothing else: a second way of choosing index entries for the contig (a fall-back on a suffix / prefix / substring
+    # of the name when the exact name has no entry) answers a region on a contig without alignments with another contig's records
+    if filt:
+        cv = filt[0].comparators[0].id
+        for n_ in walk_own(g.node):
+            other = None
+            if isinstance(n_, ast.Compare) and n_ not in filt and len(n_.ops) == 1 and any(isinstance(x, ast.Subscript) and const_value(x.slice, None) == 1 for x in ast.walk(n_)) and cv in {x.id for x in ast.walk(n_) if isinstance(x, ast.Name)}:
+                if not (isinstance(n_.ops[0], ast.Eq) and isinstance(n_.left, ast.Subscript) and const_value(n_.left.slice, None) == 1 and norm(n_.comparators[0]) == cv) and not (isinstance(n_.ops[0], ast.Eq) and norm(n_.left) == cv and isinstance(n_.comparators[0], ast.Subscript) and const_value(n_.comparators[0].slice, None) == 1):
+                    other = n_
+            elif isinstance(n_, ast.Call) and isinstance(n_.func, ast.Attribute) and n_.func.attr in ("endswith", "startswith") and isinstance(n_.func.value, ast.Subscript) and const_value(n_.func.value.slice, None) == 1 and n_.args and norm(n_.args[0]) == cv:
+                other = n_
+            if other is not None:
+                ctx.violated("R05.4", g.where(other), f"index entries are also chosen for the contig by `{norm(other)[:60]}`, not by the exact name: a region on a contig that has no aligned node (correct answer: nothing) is answered with the alignments of another contig whose name resembles it (`GRCh38#0#chr2` for `chr2`)", key_of(g, f"contig-filter-second:{norm(other)[:40]}"))
+    # a region of one base (start == end - ... as given: a == b) is a region: the command line does not reject it
+    view = ctx.repo.module("gaftools.cli.view", "R05.4")
+    from .c09 import guards_of as _gof5
+
+    for fn_ in view.funcs.values():
+        for st_ in walk_stmts(fn_.node.body):
+            is_exit = isinstance(st_, ast.Raise) or (isinstance(st_, ast.Expr) and isinstance(st_.value, ast.Call) and norm(st_.value.func).split(".")[-1] in ("error", "exit"))
+            if not is_exit:
+                continue
+            for t_, pol_ in _gof5(fn_.node, st_):
+                for c_ in ast.walk(t_):
+                    if isinstance(c_, ast.Compare) and len(c_.ops) == 1 and isinstance(c_.ops[0], (ast.GtE, ast.LtE)) and pol_:
+                        sides = [c_.left, c_.comparators[0]]
+
+                        def _is_bound(e_):
+                            if isinstance(e_, ast.Call) and norm(e_.func) == "int":
+                                return True
+                            if isinstance(e_, ast.Name):
+                                return any(isinstance(a_, ast.Assign) and any(norm(x_) == e_.id for tt_ in a_.targets for x_ in (tt_.elts if isinstance(tt_, ast.Tuple) else [tt_])) and any(isinstance(y_, ast.Call) and norm(y_.func) in ("int", "map") for y_ in ast.walk(a_.value)) for a_ in walk_own(fn_.node))
+                            return False
+
+                        if all(_is_bound(e_) for e_ in sides) and "region" in " ".join(norm(x_) for x_ in ast.walk(fn_.node) if isinstance(x_, (ast.Name, ast.Attribute)))[:20000]:
+                            ctx.violated("R05.4", fn_.where(st_), f"the command stops when `{norm(c_)[:50]}`: a region whose two bounds are equal (one position, `chr1:150-150`) is a valid region and has an answer (the alignments over the node that contains that position)", key_of(fn_, f"one-base-region-rejected:{norm(c_)[:40]}"))
 
 
 def r05_5(ctx, funcs, g):
